@@ -372,8 +372,8 @@ fn body(ctx: &Ctx) -> (Summary, Meta) {
     for f32 in [false, true] {
         let e = if f32 { f32::EPSILON as f64 } else { f64::EPSILON };
         let vs = vec![-1048576.0, -7.0, -1.0, 0.0, 2.0f64.powi(-10), 1.0, 1.0 + e, 1.0 + 2.0 * e, 1.5, 7.0];
-        let mut axes = alpha::subsets_axes(&vs, "v", 2, if quick { 3 } else { 4 });
-        axes.extend(alpha::full_word_axes(&alpha::h3(), "w", 3, if quick { 4 } else { 5 }, &[0.0, -3.0]));
+        let mut axes = alpha::subsets_axes(&vs, "v", 2, if quick { 3 } else { 6 });
+        axes.extend(alpha::full_word_axes(&alpha::h3(), "w", 3, if quick { 4 } else { 7 }, &[0.0, -3.0, 1.25]));
         axes.extend(alpha::long_word_axes(&alpha::h4(), "L", &[8, 40], 1, &[1.25]));
         for a in &axes {
             jobs.push(Job { ax: a.clone(), ay: None, f32 });
